@@ -30,6 +30,7 @@ import (
 	"github.com/basekick-labs/arc/internal/database"
 	"github.com/basekick-labs/arc/internal/metrics"
 	"github.com/basekick-labs/arc/internal/storage"
+	"github.com/basekick-labs/arc/internal/verifkit"
 	"github.com/basekick-labs/arc/internal/verifkit/duck"
 	"github.com/gofiber/fiber/v2"
 	"github.com/rs/zerolog"
@@ -123,55 +124,144 @@ func (r *c14Recorder) take() []c14Check {
 	return out
 }
 
-// ---------------------------------------------------------------- inotify
+// ---------------------------------------------------------------- file-access recorder
+//
+// Primary mechanism: fanotify (FAN_OPEN|FAN_ACCESS marks on every directory of
+// the storage root, children included). Each event carries the PID of the
+// process that touched the object, and only events of THIS process (arc's Go
+// code and the DuckDB threads it hosts) are attributed to a request. That makes
+// the request window independent of anything else on the machine: a recursive
+// grep/du/backup over the scratch area by another process used to show up as
+// "the request touched the whole tree". Fallback when fanotify is unavailable
+// (no CAP_SYS_ADMIN): inotify on the same directories, without attribution.
 
 type c14Watch struct {
 	fd   int
-	dirs map[int32]string // wd -> path relative to the storage root ("" = root)
+	fan  bool
+	root string
+	pid  int32
+	dirs map[int32]string // inotify only: wd -> path relative to the storage root ("" = root)
 }
 
-func c14NewWatch(root string) (*c14Watch, error) {
-	fd, err := syscall.InotifyInit1(syscall.IN_NONBLOCK | syscall.IN_CLOEXEC)
-	if err != nil {
-		return nil, fmt.Errorf("inotify_init1: %w", err)
-	}
-	w := &c14Watch{fd: fd, dirs: map[int32]string{}}
-	err = filepath.Walk(root, func(p string, info os.FileInfo, err error) error {
+const (
+	c14FanClassNotif     = 0x0
+	c14FanCloexec        = 0x1
+	c14FanNonblock       = 0x2
+	c14FanUnlimitedQueue = 0x10
+	c14FanMarkAdd        = 0x1
+	c14FanAccess         = 0x1
+	c14FanOpen           = 0x20
+	c14FanQOverflow      = 0x4000
+	c14FanOnDir          = 0x40000000
+	c14FanEventOnChild   = 0x08000000
+)
+
+func c14WalkDirs(root string, fn func(abs, rel string) error) error {
+	return filepath.Walk(root, func(p string, info os.FileInfo, err error) error {
 		if err != nil {
 			return err
 		}
 		if !info.IsDir() {
 			return nil
 		}
-		wd, err := syscall.InotifyAddWatch(fd, p, syscall.IN_OPEN|syscall.IN_ACCESS)
-		if err != nil {
-			return fmt.Errorf("inotify_add_watch %s: %w", p, err)
-		}
 		rel, _ := filepath.Rel(root, p)
 		if rel == "." {
 			rel = ""
 		}
-		w.dirs[int32(wd)] = filepath.ToSlash(rel)
+		return fn(p, filepath.ToSlash(rel))
+	})
+}
+
+func c14NewWatch(root string) (*c14Watch, error) {
+	if os.Getenv("VERIF_C14_INOTIFY") == "" {
+		fd, _, e := syscall.Syscall(syscall.SYS_FANOTIFY_INIT, c14FanClassNotif|c14FanCloexec|c14FanNonblock|c14FanUnlimitedQueue, uintptr(os.O_RDONLY|syscall.O_LARGEFILE), 0)
+		if e == 0 {
+			w := &c14Watch{fd: int(fd), fan: true, root: root, pid: int32(os.Getpid())}
+			atFdCwd := int64(-100)
+			err := c14WalkDirs(root, func(abs, rel string) error {
+				p, err := syscall.BytePtrFromString(abs)
+				if err != nil {
+					return err
+				}
+				_, _, e := syscall.Syscall6(syscall.SYS_FANOTIFY_MARK, fd, c14FanMarkAdd, c14FanOpen|c14FanAccess|c14FanOnDir|c14FanEventOnChild, uintptr(atFdCwd), uintptr(unsafe.Pointer(p)), 0)
+				if e != 0 {
+					return fmt.Errorf("fanotify_mark %s: %v", abs, e)
+				}
+				return nil
+			})
+			if err == nil {
+				w.drain() // the marking walk itself opened every directory
+				return w, nil
+			}
+			syscall.Close(int(fd))
+		}
+	}
+	fd, err := syscall.InotifyInit1(syscall.IN_NONBLOCK | syscall.IN_CLOEXEC)
+	if err != nil {
+		return nil, fmt.Errorf("inotify_init1: %w", err)
+	}
+	w := &c14Watch{fd: fd, root: root, dirs: map[int32]string{}}
+	err = c14WalkDirs(root, func(abs, rel string) error {
+		wd, err := syscall.InotifyAddWatch(fd, abs, syscall.IN_OPEN|syscall.IN_ACCESS)
+		if err != nil {
+			return fmt.Errorf("inotify_add_watch %s: %w", abs, err)
+		}
+		w.dirs[int32(wd)] = rel
 		return nil
 	})
 	if err != nil {
 		syscall.Close(fd)
 		return nil, err
 	}
+	w.drain()
 	return w, nil
 }
 
 func (w *c14Watch) close() { syscall.Close(w.fd) }
 
-// drain returns the set of root-relative paths opened or read since the last
-// drain ("" = the root directory itself). overflow reports a lost-event marker.
+// drain returns the set of root-relative paths opened or read BY THIS PROCESS
+// since the last drain ("" = the root directory itself). overflow reports a
+// lost-event marker. Events on one notification fd are queued in the syscall
+// that causes them, so after a response has been read completely every access
+// the request made is already in the queue.
 func (w *c14Watch) drain() (paths map[string]bool, overflow bool) {
 	paths = map[string]bool{}
-	buf := make([]byte, 64*1024)
+	buf := make([]byte, 256*1024)
 	for {
 		n, err := syscall.Read(w.fd, buf)
 		if n <= 0 || err != nil {
 			return paths, overflow
+		}
+		if w.fan {
+			const metaLen = 24
+			for off := 0; off+metaLen <= n; {
+				evLen := int(*(*uint32)(unsafe.Pointer(&buf[off])))
+				mask := *(*uint64)(unsafe.Pointer(&buf[off+8]))
+				efd := *(*int32)(unsafe.Pointer(&buf[off+16]))
+				pid := *(*int32)(unsafe.Pointer(&buf[off+20]))
+				if evLen < metaLen {
+					break
+				}
+				off += evLen
+				if mask&c14FanQOverflow != 0 {
+					overflow = true
+				}
+				if efd < 0 {
+					continue
+				}
+				link, lerr := os.Readlink(fmt.Sprintf("/proc/self/fd/%d", efd))
+				syscall.Close(int(efd))
+				if lerr != nil || pid != w.pid {
+					continue // somebody else's access (or unresolvable): not ours to judge
+				}
+				link = strings.TrimSuffix(link, " (deleted)")
+				if link == w.root {
+					paths[""] = true
+				} else if rel, ok := strings.CutPrefix(link, w.root+"/"); ok {
+					paths[rel] = true
+				}
+			}
+			continue
 		}
 		off := 0
 		for off+syscall.SizeofInotifyEvent <= n {
@@ -287,7 +377,12 @@ func c14NewEnv(t testing.TB) *c14Env {
 	h.RegisterRoutes(app)
 	w, err := c14NewWatch(root)
 	if err != nil {
-		t.Fatalf("HARNESS inotify: %v", err)
+		t.Fatalf("HARNESS file-access recorder: %v", err)
+	}
+	if w.fan {
+		verifkit.Note("file_access_recorder", "fanotify, events attributed by PID (own process only)")
+	} else {
+		verifkit.Note("file_access_recorder", "inotify fallback (no PID attribution)")
 	}
 	e := &c14Env{root: root, arc: arc, app: app, h: h, rec: rec, w: w, tfns: tfns}
 	t.Cleanup(func() {
